@@ -319,8 +319,9 @@ func runC04Readers(c *xt.T) (*xt.T, Verdict) {
 	emitUnchanged := c.Kids[1].N&1 != 0
 	t1 := c04ParseTable(c.Kids[2])
 	t2 := c04ParseTable(c.Kids[3])
-	b1 := c04Build(t1, c.Kids[2].String())
-	b2 := c04Build(t2, c.Kids[3].String())
+	reindexed := c.Kids[1].N&4 != 0
+	b1 := c04BuildFlags(t1, c.Kids[2].String(), reindexed)
+	b2 := c04BuildFlags(t2, c.Kids[3].String(), reindexed)
 	v := OK()
 	bad := func(class, format string, a ...interface{}) {
 		if v.OK {
